@@ -345,13 +345,17 @@ def count_kinds(ctx, kinds, pls):
     for p in pls:
         if p in ("d:before", "d:after"):
             ctx.count("placements_same_instant")
+        if p == "d-res":
+            ctx.count("placements_within_resolution_before_instant")
 
 
-PLACEMENTS = ("d-eps", "d:before", "d:after", "d+eps")
+PLACEMENTS = ("d-eps", "d:before", "d:after", "d+eps", "d-res")
 
 
 def placed(T, pl):
-    return {"d-eps": (T - EPS, BEFORE), "d:before": (T, BEFORE), "d:after": (T, AFTER), "d+eps": (T + EPS, BEFORE)}[pl]
+    # d-res: less than one clock resolution ahead of T: the loop runs what is due at T in that very iteration
+    return {"d-eps": (T - EPS, BEFORE), "d:before": (T, BEFORE), "d:after": (T, AFTER), "d+eps": (T + EPS, BEFORE),
+            "d-res": (T - RES / 2, BEFORE)}[pl]
 
 
 def shards(tier, seed):
